@@ -118,6 +118,30 @@ def _restructure(stmts, target, flag=None):
                                                    operand=ast.Name(id=flag, ctx=ast.Load())),
                                   body=rest_r, orelse=[]))
             return out, False
+        if isinstance(st, ast.Try) and _has_return([st]) and not st.finalbody \
+                and flag is not None and target is not None and not any(
+                    isinstance(n, (ast.For, ast.While)) and _has_return([n])
+                    for n in ast.walk(st)):
+            # returns inside try / except / else: each becomes `target = v;
+            # flag = True` (the value is still computed inside the try, where
+            # it was), and what follows the statement runs only `if not flag`
+            def sub(block):
+                stmts_, _t = _restructure(list(block), target, flag)
+                return _mark_returns(stmts_, target, flag) or [ast.Pass()]
+            new = clone(st)
+            new.body = sub(st.body)
+            new.orelse = sub(st.orelse) if st.orelse else []
+            for h_new, h_old in zip(new.handlers, st.handlers):
+                h_new.body = sub(h_old.body)
+            out.append(ast.Assign(targets=[ast.Name(id=flag, ctx=ast.Store())],
+                                  value=ast.Constant(value=False)))
+            out.append(new)
+            rest_r, tr = _restructure(stmts[i + 1:], target, flag)
+            if rest_r:
+                out.append(ast.If(test=ast.UnaryOp(op=ast.Not(),
+                                                   operand=ast.Name(id=flag, ctx=ast.Load())),
+                                  body=rest_r, orelse=[]))
+            return out, False
         if isinstance(st, (ast.Try, ast.With)) and _has_return([st]):
             raise _Fail('return inside try/with of the helper')
         if isinstance(st, FUNC + (ast.ClassDef,)):
@@ -127,6 +151,22 @@ def _restructure(stmts, target, flag=None):
                 raise _Fail('generator/global in helper')
         out.append(st)
     return out, False
+
+
+def _mark_returns(stmts, target, flag):
+    """after every assignment to the (fresh) result name, record that the
+    helper has returned"""
+    out = []
+    for st in stmts:
+        if isinstance(st, ast.If):
+            st = ast.If(test=st.test, body=_mark_returns(st.body, target, flag) or [ast.Pass()],
+                        orelse=_mark_returns(st.orelse, target, flag))
+        out.append(st)
+        if isinstance(st, ast.Assign) and len(st.targets) == 1 and \
+                isinstance(st.targets[0], ast.Name) and st.targets[0].id == target:
+            out.append(ast.Assign(targets=[ast.Name(id=flag, ctx=ast.Store())],
+                                  value=ast.Constant(value=True)))
+    return out
 
 
 class _Subst(ast.NodeTransformer):
